@@ -14,6 +14,7 @@ type aliasOps struct {
 	addInto  func(dst, a, b any) any
 	negInto  func(dst, a any) any // nil for G2
 	smulInto func(dst, a any, k *big.Int) any
+	sbmInto  func(dst any, k *big.Int) any // nil for GT
 }
 
 // aliasing checks every group operation with every legal aliasing pattern of dst and
